@@ -116,6 +116,16 @@ theorem C03_send_never_panics (accts : List Addr) (hn : accts.Nodup) (R : Addr) 
     (hRlock : s.locked R = 0) (h : Inv accts R s) : sendExt R s frm to x ≠ .panic :=
   sendExt_no_panic accts hn R s frm to x hfR htR hf ht hRlock h
 
+/-- "An operation fails exactly when bank rules require it": between distinct non-reserve parties,
+    from any state satisfying the invariant, an akava transfer succeeds **iff** the sender's spendable
+    extended balance covers the amount (`locked ≤ balance` is x/auth's own invariant, the reserve
+    holds no vesting lock). -/
+theorem C03_send_succeeds_iff (accts : List Addr) (hn : accts.Nodup) (R : Addr) (s : St) (frm to : Addr)
+    (x : Int) (hne : frm ≠ to) (hfR : frm ≠ R) (htR : to ≠ R) (hf : frm ∈ accts) (ht : to ∈ accts)
+    (hx : 0 ≤ x) (hlock : s.locked frm ≤ s.bal frm) (hRlock : s.locked R = 0) (h : Inv accts R s) :
+    (∃ s', sendExt R s frm to x = .ok s') ↔ x ≤ extSpendable R s frm :=
+  sendExt_ok_iff accts hn R s frm to x hne hfR htR hf ht hx hlock hRlock h
+
 /-- Invariant preserved by every successful `MintCoins`. -/
 theorem C03_inv_mint (accts : List Addr) (hn : accts.Nodup) (R : Addr) (s s' : St) (m : Addr)
     (perm : Bool) (u x : Int) (hm : m ∈ accts) (hx : 0 ≤ x)
